@@ -925,13 +925,11 @@ def demo : Res (St × List Shot) := do
   let r5 ← WinFlush.scroll (fun _ _ _ _ _ => true) r4.1 1 ⟨0, 0, 2, 3⟩ 1 0 none true
   WinFlush.flush solidBeh r5.1
 
-theorem demo_ok : isOk demo = true := by decide +kernel
-
 /-- The hypotheses of `inv_step_full`, `inv_step_queue`, `scroll_step_full` and `C01_full` are satisfiable together: the
     history `demo` is a `Reach` derivation whose every step succeeds, ending in a flush. -/
 example : ∃ (st st' : St) (shots : List Shot), Reach solidContent solidBeh st ∧
     WinFlush.flush solidBeh st = .ok (st', shots) := by
-  have h := demo_ok
+  have h : isOk demo = true := by decide +kernel
   unfold demo at h
   simp only [bind, Bind.bind] at h
   have r0 : Reach solidContent solidBeh (St.init 4 8 none) :=
@@ -971,6 +969,48 @@ example : ∃ (st st' : St) (shots : List Shot), Reach solidContent solidBeh st 
             cases h6 : WinFlush.flush solidBeh x5.1 with
             | ub e => rw [h6] at h; cases h
             | ok x6 => exact ⟨x5.1, x6.1, x6.2, r5, h6⟩
+
+/-- A run of tree-changing operations. -/
+def runTreeOps : St → List TreeOp → Res St
+  | st, [] => .ok st
+  | st, op :: ops => do
+    let st ← runTreeOp st op
+    runTreeOps st ops
+
+theorem reach_runTreeOps {content : Id → Int → Int → Cell} {beh : Id → Rect → List DrawOp} :
+    ∀ (ops : List TreeOp) (st st' : St), Reach content beh st → (∀ op ∈ ops, op.Ok) → runTreeOps st ops = .ok st' →
+    Reach content beh st' := by
+  intro ops
+  induction ops with
+  | nil => intro st st' r _ h; simp only [runTreeOps] at h; cases h; exact r
+  | cons op ops ih =>
+    intro st st' r hok h
+    simp only [runTreeOps, bind, Bind.bind] at h
+    cases h1 : runTreeOp st op with
+    | ub e => rw [h1] at h; cases h
+    | ok st1 =>
+      rw [h1] at h
+      exact ih st1 st' (Reach.tree op st1 r (hok op List.mem_cons_self) h1) (fun o ho => hok o (List.mem_cons_of_mem _ ho)) h
+
+/-- Every kind of tree-changing operation occurs in a successful run from a fresh terminal (nested and overlapping
+    windows, all creation flags, every restacking kind queued, a move, a hide, a show, a close, terminal resizes). -/
+def demoOps : List TreeOp :=
+  [ .newWindow 0 ⟨1, 1, 2, 3⟩ false false false false none, .newWindow 0 ⟨0, 2, 3, 4⟩ false true true false none,
+    .newWindow 1 ⟨1, 1, 2, 2⟩ true false false true none, .restack .raise 2, .restack .lowerBack 1, .restack .raiseFront 2,
+    .restack .lower 1, .setGeometry 1 ⟨0, 0, 3, 3⟩, .show 2, .hide 1, .termResize 6 10, .show 1, .close 3, .termResize 3 5 ]
+
+example : (∀ op ∈ demoOps, op.Ok) ∧ ∃ st', Reach solidContent solidBeh st' ∧ runTreeOps (St.init 4 8 none) demoOps = .ok st' := by
+  have hok : ∀ op ∈ demoOps, op.Ok := by
+    intro op hop
+    simp only [demoOps, List.mem_cons, List.mem_nil_iff, or_false] at hop
+    rcases hop with rfl | rfl | rfl | rfl | rfl | rfl | rfl | rfl | rfl | rfl | rfl | rfl | rfl | rfl <;>
+      simp [TreeOp.Ok, isRestack]
+  refine ⟨hok, ?_⟩
+  have h : isOk (runTreeOps (St.init 4 8 none) demoOps) = true := by decide +kernel
+  cases h1 : runTreeOps (St.init 4 8 none) demoOps with
+  | ub e => rw [h1] at h; cases h
+  | ok st' =>
+    exact ⟨st', reach_runTreeOps demoOps _ st' (Reach.init _ _ 4 8 none (by decide) (by decide) solid_repaints) hok h1, rfl⟩
 
 /-! ### facts regenerated from the C source on every run -/
 
